@@ -92,6 +92,15 @@ fn build_seq<'e, 'c>(r: &R, base: &'e Expr, calls: &'c [Call<'e>], k: usize, sub
                 }),
             }
         }
+        "field0" => {
+            // newtype around a Vec (`struct Path(Vec<Step>)` with IntoIterator): iterate the wrapped vector
+            let s = sname.clone();
+            Seq {
+                setup: vec![format!("let {} = &(({}).0);", sname, base_txt)],
+                len: format!("{}.len()", sname),
+                at: Box::new(move |i| Elem::Place(format!("{}[{}]", s, i))),
+            }
+        }
         v if v.starts_with("via:") => {
             // Deref coercion made explicit: the prelude supplies the accessor (assumed = the Deref impl)
             let s = sname.clone();
@@ -497,6 +506,75 @@ pub fn rw_chain(r: &R, e: &Expr) -> Option<String> {
             return None;
         }
     }
+    Some(s)
+}
+
+/// R2b: `for PAT in EXPR { BODY }` over a Vec-like source -> indexed while loop (std: IntoIterator for Vec yields the
+/// elements in order); BODY is copied verbatim and must not contain break / continue.
+pub fn rw_for(r: &R, e: &Expr) -> Option<String> {
+    let fl = match e {
+        Expr::ForLoop(f) => f,
+        _ => return None,
+    };
+    if r.opts.has_rw("keep_iter") {
+        return None;
+    }
+    struct BC(bool);
+    impl<'a> syn::visit::Visit<'a> for BC {
+        fn visit_expr_break(&mut self, _: &'a syn::ExprBreak) { self.0 = true; }
+        fn visit_expr_continue(&mut self, _: &'a syn::ExprContinue) { self.0 = true; }
+    }
+    let mut bc = BC(false);
+    syn::visit::Visit::visit_block(&mut bc, &fl.body);
+    if bc.0 {
+        r.err("for loop with break/continue is not supported");
+        return None;
+    }
+    let k = r.loop_ctr.get();
+    CUR_TERM.with(|t| *t.borrow_mut() = "for".to_string());
+    let spec = match r.opts.loop_spec(k, "for") {
+        Some(s) => s.clone(),
+        None => {
+            r.err(format!("for loop needs a `//@loop {}` section", k));
+            return Some(format!("qx_missing_loop_spec_{}()", k));
+        }
+    };
+    r.loop_ctr.set(k + 1);
+    // source: treat `EXPR` as `EXPR.into_iter()`
+    let calls = vec![Call { method: "into_iter".to_string(), args: vec![] }];
+    let (seq, _) = build_seq(r, &fl.expr, &calls, k, 0)?;
+    let copy = spec.opts.get("elem").map(|s| s == "copy" || s == "clone").unwrap_or(false);
+    CLONE_ELEMS.with(|c| c.set(spec.opts.get("elem").map(|s| s == "clone").unwrap_or(false)));
+    let i = format!("qx_i{}", k);
+    let n = format!("qx_n{}", k);
+    let mut binds = vec![];
+    bind(r, &fl.pat, &(seq.at)(&i), copy, &mut binds);
+    r.note("R2b for loop over a Vec-like source -> indexed while loop");
+    let mut s = String::new();
+    s.push_str("{\n");
+    for st in &seq.setup {
+        s.push_str(&format!("    {}\n", st));
+    }
+    s.push_str(&format!("    let {} = {};\n    let mut {}: usize = 0;\n", n, seq.len, i));
+    if let Some(pb) = spec.opts.get("pbefore") {
+        s.push_str(&format!("    proof {{ {} }}\n", pb));
+    }
+    s.push_str(&format!("    #[verifier::loop_isolation(false)]\n    while {i} < {n}\n        invariant {i} <= {n},\n{inv}\n        decreases {n} - {i},\n    {{\n", i = i, n = n, inv = spec.inv.trim_end()));
+    if let Some(ps) = spec.opts.get("pstart") {
+        s.push_str(&format!("        proof {{ {} }}\n", ps));
+    }
+    for b in &binds {
+        s.push_str(&format!("        {}\n", b));
+    }
+    s.push_str(&format!("        {}\n", r.block(&fl.body)));
+    if let Some(pe) = spec.opts.get("pend") {
+        s.push_str(&format!("        proof {{ {} }}\n", pe));
+    }
+    s.push_str(&format!("        {} = {} + 1;\n    }}\n", i, i));
+    if let Some(pa) = spec.opts.get("pafter") {
+        s.push_str(&format!("    proof {{ {} }}\n", pa));
+    }
+    s.push_str("}");
     Some(s)
 }
 
